@@ -110,7 +110,17 @@ func main() {
 			if *splitSame != "" {
 				// the ties over the split part were checked against this snapshot: the part
 				// generated now must consist of the same definitions
-				snap, err := os.ReadFile(*splitSame)
+				// several snapshots, comma separated: the one named like the file (else the only one)
+				snapName := *splitSame
+				if cands := strings.Split(*splitSame, ","); len(cands) > 1 {
+					snapName = ""
+					for _, c := range cands {
+						if filepath.Base(strings.TrimSpace(c)) == filepath.Base(f) {
+							snapName = strings.TrimSpace(c)
+						}
+					}
+				}
+				snap, err := os.ReadFile(snapName)
 				if err != nil || !sameBlocks(string(snap), txt) {
 					os.Remove(*out)
 					fmt.Fprintln(os.Stderr, "go2coq: the part generated for "+f+" differs from the snapshot "+*splitSame+" its ties were checked against (treated as outside the subset)")
